@@ -109,7 +109,7 @@ fn family() -> Vec<SetCase> {
                     for fail in [false, true] {
                         for split_rules in [false, true] {
                             let mut fns = BTreeMap::new();
-                            let spec_f = |c: bool| me::FnSpec { cacheable: c, fail_on: if fail { vec![me::arg_key(a)] } else { vec![] }, fail_first: 0 };
+                            let spec_f = |c: bool| me::FnSpec { cacheable: c, fail_on: if fail { vec![me::arg_key(a)] } else { vec![] }, fail_first: 0, uncacheable_after: 0 };
                             fns.insert("fa".to_string(), spec_f(cacheable));
                             fns.insert("fb".to_string(), spec_f(cacheable));
                             let c1 = Expr::func("fa", Expr::Value(a.clone()));
@@ -172,8 +172,8 @@ pub fn run(ctx: &Ctx) {
         .flat_map(|&n| {
             [true, false].into_iter().map(move |cacheable| {
                 let mut fns = BTreeMap::new();
-                fns.insert("fa".to_string(), me::FnSpec { cacheable, fail_on: vec![], fail_first: 0 });
-                fns.insert("fb".to_string(), me::FnSpec { cacheable: true, fail_on: vec![me::arg_key(&Value::Int(7))], fail_first: 0 });
+                fns.insert("fa".to_string(), me::FnSpec { cacheable, fail_on: vec![], fail_first: 0, uncacheable_after: 0 });
+                fns.insert("fb".to_string(), me::FnSpec { cacheable: true, fail_on: vec![me::arg_key(&Value::Int(7))], fail_first: 0, uncacheable_after: 0 });
                 let call = |f: &str, k: usize| Expr::func(f, Expr::value(k as i128));
                 let first: Vec<Expr> = (0..n).map(|k| call(if k % 5 == 4 { "fb" } else { "fa" }, k)).filter(|e| !matches!(e, Expr::Function(f, a) if f == "fb" && matches!(**a, Expr::Value(Value::Int(7))))).collect();
                 let again = first.clone();
